@@ -339,16 +339,37 @@ theorem validateCollateral_spec {E : Env} {s : St} {ty : Nat} {cd : Denom} {cp :
   · rename_i cp' hcp
     split at h
     · cases h
+    split at h
+    · cases h
     · split at h
       · cases h
       · split at h
         · cases h
         · cases h
-          rename_i h1 h2 h3
+          rename_i h0 h1 h2 h3
           refine ⟨hcp, ?_, ?_, ?_⟩
           · exact Decidable.of_not_not h1
           · cases hs : s.status cp.spot <;> simp_all
           · cases hs : s.status cp.liq <;> simp_all
+
+/-- `ValidateCollateral` only accepts a type that is listed in the parameters -/
+theorem validateCollateral_active {E : Env} {s : St} {ty : Nat} {cd : Denom} {cp : CollParam}
+    (h : validateCollateral E s ty cd = some cp) : cp.active = true := by
+  unfold validateCollateral at h
+  split at h
+  · cases h
+  · split at h
+    · cases h
+    · rename_i h0
+      have : cp.active = true := by
+        split at h
+        · cases h
+        · split at h
+          · cases h
+          · split at h
+            · cases h
+            · cases h; cases ha : cp.active <;> simp_all
+      exact this
 
 theorem denomOf_eq {E : Env} {ty : Nat} {cp : CollParam} (h : E.P.colls[ty]? = some cp) : denomOf E ty = cp.denom := by
   simp [denomOf, h]
